@@ -139,7 +139,16 @@ Definition m_create_node (s : mst) (name : str) : mst * nat :=
 
 Definition m_create (s : mst) (name0 : str) : mst * res :=
   let name := normalize_path name0 in
-  let '(s1, f) := m_create_node s name in
+  let existing_file :=
+    match lookup s name with
+    | Some f => match get_node s f with Some n => if ndir n then None else Some f | None => None end
+    | None => None
+    end in
+  let '(s1, f) :=
+    match existing_file with
+    | Some f => (upd_node s f (fun n => with_mtime (mclock s) (with_data [] n)), f)   (* truncate in place *)
+    | None => m_create_node s name
+    end in
   let '(s2, h) := alloc_handle s1 (mkH f 0 0 false false) in
   (s2, RHandle h).
 
@@ -258,10 +267,10 @@ Definition find_descendants (s : mst) (name : str) : list nat :=
 Definition m_rename (s : mst) (old0 new0 : str) : mst * res :=
   let old := normalize_path old0 in
   let new := normalize_path new0 in
-  if beqb old new then (s, ROk) else
   match lookup s old with
   | None => (s, RErr (EW KNotExist))
   | Some f =>
+    if beqb old new then (s, ROk) else
     match unregister s old with
     | None => (s, RPanic)
     | Some (s1, false) => (s1, RErr (E KNotExist))
@@ -365,6 +374,7 @@ Definition m_step_raw (s : mst) (o : op) : mst * res :=
   | HSeek i off wh => m_hop s i (fun h nd => let '(h', r) := f_seek (ndata nd) h off wh in (set_handle s i h', r))
   | HTruncate i n => m_hop s i (fun h nd => let '(d, r) := f_truncate (ndata nd) h n in (put_data s (href h) d, r))
   | HClose i => m_hop s i (fun h nd =>
+      if hclosed h then (s, RErr (E KClosed)) else
       let s1 := set_handle s i (set_closed h) in
       ((if hro h then s1 else upd_node s1 (href h) (with_mtime (mclock s))), ROk))
   | HReaddir i n => m_hop s i (fun h nd =>
